@@ -6,6 +6,7 @@ import (
 	"errors"
 	"fmt"
 	"os"
+	"regexp"
 	"runtime/debug"
 	"sort"
 	"strings"
@@ -241,15 +242,18 @@ func guarded(f func()) (panicMsg string, overrun bool) {
 			if ie, ok := r.(infraError); ok {
 				panic(ie)
 			}
-			panicMsg = fmt.Sprintf("%v\n%s", r, trimStack(debug.Stack()))
+			panicMsg = fmt.Sprintf("%s\n%s", reHexAddr.ReplaceAllString(fmt.Sprint(r), "0x…"), trimStack(debug.Stack()))
 		}
 	}()
 	f()
 	return
 }
 
+var reHexAddr = regexp.MustCompile(`0x[0-9a-f]{6,}\??`)
+
 func trimStack(b []byte) string {
-	lines := strings.Split(string(b), "\n")
+	// addresses differ from process to process: a replayed violation must print the same detail
+	lines := strings.Split(reHexAddr.ReplaceAllString(string(b), "0x…"), "\n")
 	var keep []string
 	for _, l := range lines {
 		if strings.Contains(l, "go-openapi") || strings.Contains(l, "panic") {
